@@ -318,3 +318,25 @@ pub assume_specification<'a, T: ?Sized + core::convert::AsRef<std::ffi::OsStr>>[
     ensures
         pbv(&r) == os_path::<T>(s),
 ;
+
+/// the lines a `Lines<BufReader<File>>` iterator will still yield (A1: BufRead::lines strips "\n" / "\r\n")
+pub uninterp spec fn h_lines<B>(l: &std::io::Lines<B>) -> Seq<Seq<char>>;
+/// the source can be read to the end (valid UTF-8, no OS error)
+pub uninterp spec fn read_ok() -> bool;
+
+/// R7 shim for `Lines::next` (A1): the next line without its terminator; an I/O or UTF-8 error is reported as
+/// Some(Err).  (A shim instead of an assume_specification: Verus does not normalise the associated type
+/// `<Lines<B> as Iterator>::Item` of the trait method's result, which makes the value unusable in closures.)
+#[verifier::external_body]
+pub fn lines_next(l: &mut std::io::Lines<std::io::BufReader<std::fs::File>>) -> (r: Option<std::io::Result<String>>)
+    ensures
+        (match r {
+            None => h_lines(old(l)).len() == 0 && h_lines(final(l)) == h_lines(old(l)),
+            Some(Ok(s)) => h_lines(old(l)).len() > 0 && s@ == h_lines(old(l))[0] && h_lines(final(l)) == h_lines(old(l)).skip(1),
+            // an unreadable line (I/O error, invalid UTF-8) still counts as one consumed line
+            Some(Err(_)) => h_lines(old(l)).len() > 0 && h_lines(final(l)) == h_lines(old(l)).skip(1),
+        }),
+        read_ok() ==> !(r is Some && r->Some_0 is Err),
+{
+    l.next()
+}
